@@ -528,7 +528,7 @@ func init() {
 		ID:        "C19",
 		Level:     "exploration",
 		NeedsTerm: true,
-		Rule: "Unescape(Escape(s)) == s and Unescape(EscapeMacro(s)) == s for: every single rune 0x00-0xFF (exhaustive), every pair of such runes (65536, exhaustive, 256 cases), every bound sequence and macro body of every keymap of the default configuration, random sequences of 1-12 runes over 0x00-0xFF and printable Unicode; for each of them also the line dump-functions / dump-macros would print (the notation between double quotes, as a key sequence bound to self-insert and as a macro body) is parsed back with the inputrc parser and must bind exactly that sequence / give exactly that macro; plus sessions that run dump-functions/dump-variables/dump-macros with a numeric argument on configurations produced by C13's generator and parse the captured output back. " +
+		Rule: "Unescape(Escape(s)) == s and Unescape(EscapeMacro(s)) == s for: every single rune 0x00-0xFF (exhaustive), every pair of such runes (65536, exhaustive, 256 cases), every bound sequence and macro body of every keymap of the default configuration, random sequences of 1-12 runes over 0x00-0xFF and printable Unicode; for each of them also the line dump-functions / dump-macros would print (the notation between double quotes, as a key sequence bound to self-insert and as a macro body) is parsed back with the inputrc parser and must bind exactly that sequence / give exactly that macro; plus sessions that run dump-functions/dump-variables/dump-macros with a numeric argument on configurations produced by C13's generator and parse the captured output back; one such session in three then changes binds through the API (new sequence, another command for an existing one, a deletion, a new and a changed macro) and dumps again in a second call. " +
 			"distinct non-trivial = distinct (kind, block / keymap / rune-class set / mode) tuples",
 		Assumptions: []string{"the exhaustive part is complete only when all cases of the tier ran (the driver reports cases_planned vs evaluations)"},
 		N: func(tier string) int {
